@@ -347,16 +347,22 @@ pub fn run_term(trace: &Trace) -> Outcome {
     'events: for (ei, ev) in trace.events.iter().enumerate() {
         stats.events += 1;
         match ev {
-            Ev::Rx { .. } | Ev::Loopback => {
-                let bytes = match ev {
-                    Ev::Rx { hex } => from_hex(hex),
+            Ev::Rx { .. } | Ev::Loopback | Ev::RxWide { .. } => {
+                let chars: Vec<char> = match ev {
+                    Ev::Rx { hex } => from_hex(hex).into_iter().map(|b| b as char).collect(),
+                    Ev::RxWide { cps } => {
+                        stats.add("wide_chars", cps.len() as u64);
+                        cps.iter().filter_map(|c| char::from_u32(*c)).collect()
+                    }
                     _ => {
                         let r = std::mem::take(&mut s.replies);
                         stats.add("loopback_bytes", r.len() as u64);
-                        r
+                        r.into_iter().map(|b| b as char).collect()
                     }
                 };
-                for b in bytes {
+                for ch in chars {
+                    // monitors that recognise sequences look at bytes; a wide character is none of them
+                    let b: u8 = if (ch as u32) < 256 { ch as u32 as u8 } else { b'?' };
                     guard::phase(1);
                     hooks::set_fuel(if cumulative { fuel_left } else { fuel }, DEFAULT_MAX_DEPTH);
                     let tickets_before = hooks::gate_tickets();
@@ -370,7 +376,7 @@ pub fn run_term(trace: &Trace) -> Outcome {
                     }
                     let r = {
                         let Session { buf, caret, parser, .. } = &mut s;
-                        catch_unwind(AssertUnwindSafe(|| parser.get().print_char(buf, 0, caret, b as char)))
+                        catch_unwind(AssertUnwindSafe(|| parser.get().print_char(buf, 0, caret, ch)))
                     };
                     s.recent.push_back(b);
                     if s.recent.len() > 40 {
